@@ -73,6 +73,7 @@ type PacketAdaptationExtensionField struct {
 	LegalTimeWindowOffset  uint16 // Extra information for rebroadcasters to determine the state of buffers when packets may be missing.
 	Length                 int
 	PiecewiseRate          uint32 // The rate of the stream, measured in 188-byte packets, to define the end-time of the LTW.
+	ReservedLength         int    // Number of reserved bytes that close the extension, after the optional fields
 	SpliceType             uint8  // Indicates the parameters of the H.262 splice.
 }
 
@@ -248,6 +249,7 @@ func parsePacketAdaptationField(i *astikit.BytesIterator) (a *PacketAdaptationFi
 
 			// Length
 			a.AdaptationExtensionField.Length = int(b)
+			offsetExtensionEnd := i.Offset() + a.AdaptationExtensionField.Length
 			if a.AdaptationExtensionField.Length > 0 {
 				// Get next byte
 				if b, err = i.NextByte(); err != nil {
@@ -300,6 +302,12 @@ func parsePacketAdaptationField(i *astikit.BytesIterator) (a *PacketAdaptationFi
 						err = fmt.Errorf("astits: parsing DTS failed: %w", err)
 						return
 					}
+				}
+
+				// Reserved bytes close the extension: they belong to it, not to the stuffing that follows
+				if offsetExtensionEnd > i.Offset() && offsetExtensionEnd <= afStartOffset+a.Length {
+					a.AdaptationExtensionField.ReservedLength = offsetExtensionEnd - i.Offset()
+					i.Seek(offsetExtensionEnd)
 				}
 			}
 		}
@@ -547,6 +555,9 @@ func calcPacketAdaptationFieldExtensionLength(afe *PacketAdaptationExtensionFiel
 	if afe.HasSeamlessSplice {
 		length += ptsOrDTSByteLength
 	}
+	if afe.ReservedLength > 0 {
+		length += uint8(afe.ReservedLength)
+	}
 	return length
 }
 
@@ -581,6 +592,11 @@ func writePacketAdaptationFieldExtension(w *astikit.BitsWriter, afe *PacketAdapt
 			return 0, err
 		}
 		bytesWritten += n
+	}
+
+	for i := 0; i < afe.ReservedLength; i++ {
+		b.Write(uint8(0xff))
+		bytesWritten++
 	}
 
 	retErr = b.Err()
